@@ -55,9 +55,9 @@ def compare(got, exp, f, normsq, shifted, np, loose=False):
         return 'shape %s want %s' % (got.shape, exp.shape)
     t = tol(f, normsq, np, fft=loose)
     if shifted:
-        err = float(np.abs(np.abs(got) - np.abs(exp)).max()) if got.size else 0.
+        err = float(core.maxabs(np.abs(got) - np.abs(exp))) if got.size else 0.
     else:
-        err = float(np.abs(got - exp).max()) if got.size else 0.
+        err = float(core.maxabs(got - exp)) if got.size else 0.
     if not (err <= t):
         return '%s error %.3g > %.3g' % ('modulus' if shifted else 'value', err, t)
     return None
